@@ -5,7 +5,8 @@ package main
 // plain chain.RollbackTo calls and EpochStats queries; after every event the harness prints what the REAL node's chain and
 // consensus database look like (every stored period / epoch point with its end hash, the stored election keys, the end block
 // of every tick) and the Lean model — replaying the same events — must hold the same database, classify every query the same
-// way (served from the store <=> the stored end hash is the chain's) and count the same momentums per pillar.
+// way (served from the store <=> the stored end hash is the chain's and the epoch is finished) and count the same momentums
+// per pillar.
 //
 //	nc-new <fid> <genesisHash> <periodSeconds> <periodsPerEpoch>
 //	nc-insert <fid> <hash>:<secondsAfterGenesis>:<pillar>   | <height>
@@ -315,7 +316,7 @@ func (r *syncRun) ncEpoch(f *ncFollower, T uint64, what string) {
 		fr := f.frontier()
 		unfinished := fr.Timestamp.Unix()-f.genTs < int64(T+1)*int64(consensus.EpochDuration/time.Second)
 		if unfinished && err == nil && cerr == nil {
-			// (reported, and the scenario goes on: the model serves the same stored point — epoch_unfinished_after_rollback_keeps_trace)
+			// (finding FX1, repaired in b4e9eef: a recurrence is reported under its own text; the scenario goes on)
 			c.Fail("C06: nc follower %d (%s): statistics of the UNFINISHED epoch %d with the frontier at height %d: %.260s — a consensus instance without history on the same chain: %.260s",
 				f.id, what, T, fr.Height, a, b)
 			return
@@ -492,7 +493,8 @@ func (r *syncRun) nodeCache(a *producer) {
 	}
 	// ---- S4: a branch with a production gap: its momentum g1 is the last of epoch 0 and lies in the epoch's FIRST period, the
 	//      next one is in epoch 1. A node that holds the branch stores the point of epoch 0 (all periods merged) under end hash
-	//      g1; rolled back to g1 the epoch is unfinished again while the end hash still matches.
+	//      g1; rolled back to g1 the epoch is unfinished again while the end hash still matches (FX1: the stored point must not
+	//      be served then — since b4e9eef it is deleted and the running epoch recomputed from its started periods).
 	{
 		fpH := 12 + c.R.Intn(12) // fork point in the first period (heights 1..30)
 		fp := hist.byHash[trunk[fpH-1]]
